@@ -255,13 +255,17 @@ def runLive04 (kv : List (String × String)) : IO Res := do
   for t in lc.threads do
     if !lc.thr.any (fun e => e.tid == t.tid) then return .propfail s!"listed thread {t.tid} is not a thread of the target" tags
   let mut expectedCount := 0
+  let mut omitted := 0
   for exp in lc.thr do
     let recs := lc.threads.filter (fun t => t.tid == exp.tid)
     -- a thread that exits while the dump is taken may be listed or omitted; one that is traced by
     -- somebody else cannot be attached and is omitted
     if exited.contains exp.tid then
       if recs.length > 1 then return .propfail s!"exiting thread {exp.tid} listed twice" tags
-      if recs.length == 0 then tags := "exit.omitted" :: tags else tags := "exit.listed" :: tags
+      if recs.length == 0 then
+        tags := "exit.omitted" :: tags
+        omitted := omitted + 1
+      else tags := "exit.listed" :: tags
       continue
     if traced && exp.tid == lc.cfg.blamed then
       if recs.length != 0 then return .propfail "a thread traced by another process is listed" tags
@@ -319,6 +323,15 @@ def runLive04 (kv : List (String × String)) : IO Res := do
     if st.take 10 != ext80 false (2001 + 2 * exp.idx) 1 then return .propfail s!"thread {exp.tid}: ST0 differs" tags
     if (st.drop 16).take 10 != ext80 true (13 + 4 * exp.idx) 2 then return .propfail s!"thread {exp.tid}: ST1 differs" tags
     tags := "thread.checked" :: tags
+  -- every thread that was omitted because it vanished is reported as a soft error of the suspend step
+  match get kv "tree" with
+  | some tree =>
+    let reported := ((splitList tree ",").filter (fun p => p.startsWith "SuspendThreadsErrors/")).length
+    if get kv "soft" != some "ok" then return .propfail "threads were omitted but the soft-error stream is absent or malformed" tags
+    if reported < omitted then
+      return .propfail s!"{omitted} exiting threads were omitted from the thread list but only {reported} soft errors report it" tags
+    if omitted > 0 then tags := "exit.reported" :: tags
+  | none => pure ()
   return .ok tags (some s!"{lc.thr.length}/{exited.length}/{tags.eraseDups}")
 
 /-- the IP window of the model: clipped to the first mapping containing the crash IP -/
@@ -372,9 +385,17 @@ def runLive07 (kv : List (String × String)) : IO Res := do
       let ip := greg lc.cfg.gregs REG_RIP
       let ms := aggregate none lc.maps
       match ipWindow ms ip with
-      | some (lo, len) =>
+      | some (lo, len0) =>
         tags := "ipwindow.expected" :: tags
-        if len < 256 then tags := "ipwindow.clipped" :: tags
+        if len0 < 256 then tags := "ipwindow.clipped" :: tags
+        -- what can be read of it: a vectored read that begins in readable memory stops at the first page
+        -- without read permission (the prefix is what gets recorded); one that begins in a mapped page without
+        -- read permission falls back to /proc/<pid>/mem, which reads every mapped page
+        let readableAt (a : Nat) : Bool := lc.maps.any (fun l => l.s ≤ a && a < l.e && l.perms.testBit 0)
+        let len := if readableAt lo then
+            ((List.range len0).find? (fun k => !readableAt (lo + k))).getD len0
+          else len0
+        if len < len0 then tags := "ipwindow.short" :: tags
         if !ml.any (fun m => m.start == lo && m.size == len) then
           return .propfail s!"no memory region [{lo},+{len}) around the crash instruction pointer {ip}" tags
       | none => tags := "ip.unmapped" :: tags
